@@ -1,6 +1,9 @@
 """Entry points of E4: whole-program roots and modular entry points."""
+import os
 import sys
 import time
+
+sys.path.insert(0, os.path.dirname(os.path.dirname(os.path.dirname(os.path.abspath(__file__)))))
 
 from .domain import G, St, new_int, const_int, new_ptr, new_obj, new_top, trange
 from .engine import Ctx, Interp, Fields, write, A1_BOUND
@@ -123,16 +126,22 @@ def analyze_fn(facts, inst, model, overrides=None, ctx=None, pre=None):
     fr = next(G.frames)
     afr = next(G.frames)
     from .engine import Agg, snapshot
+    from audit.contracts import contract_for
+    pre_c = contract_for(inst["dpath"]) or {}
     for i in range(1, inst["argc"] + 1):
         ty = inst["locals"][i]
         v = mk_arg(st, ty, (afr, i), facts, model, i, overrides or {})
+        if i in pre_c and isinstance(v, int):
+            st.set_iv(v, pre_c[i][0], pre_c[i][1])
         if isinstance(v, Agg):
             v = snapshot(st, v)
         write(st, (fr, i), v)
     if pre:
         pre(st, fr)
     t0 = time.time()
+    I.mod.active.add(inst["id"])
     exits = I.run_fn(inst, fr, [st])
+    I.mod.active.discard(inst["id"])
     ctx.wall = time.time() - t0
     ctx.exits = len(exits)
     ctx.exit_states = exits
